@@ -54,6 +54,19 @@ add("C13", "fault_enumeration", "byte-conservation law checked on every recorded
     "problems detected on the very last byte (counted in the evidence).",
     "Trusted: region end of an overrun taken from the reference (fallback: the error's own figures).", "DESIGN.md 4/C13")
 
+add("C02", "exploration", "byte-conservation law over the recorded event chunks (slice at running offset, pinned width) plus icontract post-conditions on the serialisation leaf functions",
+    "Every accepted input of the C01 workloads and value-corrupted variants in warn mode are re-encoded event by event and compared "
+    "with the input slices; signed, 64-bit, named-range and enum-backed leaves are counted in the evidence.",
+    "Trusted: pinned widths. The contract layer is supplementary and reports its evaluation counts.", "DESIGN.md 4/C02")
+add("C06", "exploration", "outcome-class monitor at the API boundary under random, mutated, mis-typed and exhaustive small-alphabet inputs, keyed by failure mechanism",
+    "Tens of thousands (thorough: millions) of hostile decodes; any escaping exception outside the documented classes is a violation "
+    "identified by exception class and innermost tpmstream frame; termination by logical step cap.",
+    "Known finding D10 (response encrypt-flag assertion) is listed in known_findings.json by mechanism.", "DESIGN.md 4/C06")
+add("C07", "fault_enumeration", "pairwise comparison of the strict-mode and warn-mode traces of identical bytes up to the first problem",
+    "All fault classes (size, value, truncation, suffix, small-alphabet, mutation) are decoded in both modes; events before the first "
+    "problem and the problem's class and details (captured at observation time) must coincide.",
+    "No model needed; cases in which both modes fail with the same internal error are left to C06/C08.", "DESIGN.md 4/C07")
+
 NOT_YET = "monitor not built yet in this phase; will be claimed once validated on the unchanged tree"
 
 
